@@ -4908,18 +4908,58 @@ static PyObject *
 _trait_setstate(trait_object *trait, PyObject *args)
 {
     PyObject *ignore;
+    PyObject *py_post_setattr, *py_validate, *default_value, *delegate_name,
+        *delegate_prefix, *handler, *obj_dict;
+    int default_value_type;
+    unsigned int flags;
     int getattr_index, setattr_index, post_setattr_index, validate_index,
         delegate_attr_name_index;
 
+    /* Parse into local variables: the object values are borrowed references
+       and must not reach the trait unless the whole state is accepted. */
     if (!PyArg_ParseTuple(
             args, "(iiiOiOiOIOOiOOO)", &getattr_index, &setattr_index,
-            &post_setattr_index, &trait->py_post_setattr, &validate_index,
-            &trait->py_validate, &trait->default_value_type,
-            &trait->default_value, &trait->flags, &trait->delegate_name,
-            &trait->delegate_prefix, &delegate_attr_name_index, &ignore,
-            &trait->handler, &trait->obj_dict)) {
+            &post_setattr_index, &py_post_setattr, &validate_index,
+            &py_validate, &default_value_type, &default_value, &flags,
+            &delegate_name, &delegate_prefix, &delegate_attr_name_index,
+            &ignore, &handler, &obj_dict)) {
         return NULL;
     }
+
+    /* The indices come from a pickle: make sure that they refer to entries of
+       the function tables (the last entry of the getattr and setattr tables
+       is the NULL sentinel). */
+    if ((getattr_index < 0)
+        || (getattr_index >= (int)(sizeof(getattr_handlers)
+                                   / sizeof(getattr_handlers[0])) - 1)
+        || (setattr_index < 0)
+        || (setattr_index >= (int)(sizeof(setattr_handlers)
+                                   / sizeof(setattr_handlers[0])) - 1)
+        || (post_setattr_index < 0)
+        || (post_setattr_index >= (int)(sizeof(setattr_property_handlers)
+                                        / sizeof(setattr_property_handlers[0])))
+        || (validate_index < 0)
+        || (validate_index >= (int)(sizeof(validate_handlers)
+                                    / sizeof(validate_handlers[0])))
+        || (delegate_attr_name_index < 0)
+        || (delegate_attr_name_index
+            >= (int)(sizeof(delegate_attr_name_handlers)
+                     / sizeof(delegate_attr_name_handlers[0])))) {
+        PyErr_SetString(
+            PyExc_ValueError,
+            "invalid trait state: function index out of range");
+        return NULL;
+    }
+
+    trait->py_post_setattr = py_post_setattr;
+    trait->py_validate = py_validate;
+    trait->default_value_type = default_value_type;
+    trait->default_value = default_value;
+    trait->flags = flags;
+    trait->delegate_name = delegate_name;
+    trait->delegate_prefix = delegate_prefix;
+    trait->handler = handler;
+    trait->obj_dict = obj_dict;
 
     trait->getattr = getattr_handlers[getattr_index];
     trait->setattr = setattr_handlers[setattr_index];
